@@ -1,6 +1,7 @@
 package transport
 
 import (
+	"context"
 	"encoding/json"
 	"errors"
 	"fmt"
@@ -22,6 +23,32 @@ func jsonDecodeParams(r io.Reader, params **graphql.RawParams) error {
 		return errors.New("request must be a JSON object, got null")
 	}
 	return nil
+}
+
+// nextResponse runs the response handler and turns a panic that escaped field execution (for
+// example one raised by a custom scalar's MarshalGQL, which runs when the response is built)
+// into an error response. The streaming transports use it once their headers are sent, so that
+// the error reaches the client in the transport's own framing instead of as bare JSON written
+// by the server's recover; panicked tells the transport to stop asking for more.
+func nextResponse(
+	ctx context.Context,
+	rc *graphql.OperationContext,
+	next graphql.ResponseHandler,
+) (resp *graphql.Response, panicked bool) {
+	defer func() {
+		if r := recover(); r != nil {
+			err := rc.Recover(ctx, r)
+			var gqlErr *gqlerror.Error
+			if !errors.As(err, &gqlErr) {
+				gqlErr = &gqlerror.Error{}
+				if err != nil {
+					gqlErr.Message = err.Error()
+				}
+			}
+			resp, panicked = &graphql.Response{Errors: gqlerror.List{gqlErr}}, true
+		}
+	}()
+	return next(ctx), false
 }
 
 func writeJson(w io.Writer, response *graphql.Response) {
